@@ -328,6 +328,10 @@ def oracle_C05(hi, ops, obs):
                         op = int(lf.args[0]); running += abs(power.get(op, 0)); power[op] = 0
                     elif lf.kind == 'RMPENDING' and int(lf.args[0]) >= 0: pending.discard(int(lf.args[0]))
                     elif lf.kind == 'CREATE': pending.add(int(lf.args[0]))
+        # the running sum the block leaves behind counts every successful change — increase, decrease, admission, removal —
+        # with the voting power the validator had when the message ran
+        if b['halt'] is None and 'tot' in b and len(b['txr']) >= len(ob['txs']) and b['tot'][2] != running:
+            out.append(Viol(hi, b['h'], 'sum-not-exact', f"the block's successful changes add up to {running}, the stored sum is {b['tot'][2]}"))
         if out: break
     return out
 
@@ -454,9 +458,21 @@ def oracle_C14(hi, ops, obs):
         if j == 0 or (b['halt'] and not b['txr']): continue
         ob = ops['blocks'][j-1]
         prev = obs[j-1]
+        lastset = {}   # op -> voting power assigned by the latest successful SetPower of this block (nothing else touched it since)
         for i, tx in enumerate(ob['txs']):
             if i >= len(b['txr']): break
             res = b['txr'][i]
+            if tx['signer'] == -1 and len(tx['msgs']) == 1 and tx['msgs'][0].kind == 'SETPOWER' and res == 'ok':
+                m0 = tx['msgs'][0]; op0 = int(m0.args[0]); P0 = int(m0.args[1])
+                if op0 in lastset and PR <= P0 < 2**63 and P0 // PR == lastset[op0]:
+                    out.append(Viol(hi, b['h'], 'same-power-accepted', f"tx {i} op {op0} power {P0}: the voting power was set to {lastset[op0]} earlier in this block"))
+            if res == 'ok':
+                for m2 in tx['msgs']:
+                    for lf in m2.flat():
+                        if lf.kind == 'SETPOWER' and lf.args and lf.args[0].lstrip('-').isdigit() and int(lf.args[0]) >= 0:
+                            lastset[int(lf.args[0])] = int(lf.args[1]) // PR
+                        elif lf.kind in ('REMOVE', 'UNJAIL') and lf.args and lf.args[0].lstrip('-').isdigit():
+                            lastset.pop(int(lf.args[0]), None)
             if tx['signer'] != -1 or len(tx['msgs']) != 1 or tx['msgs'][0].kind != 'SETPOWER': continue
             m = tx['msgs'][0]; op = int(m.args[0]); P = int(m.args[1])
             if res == 'sdk:32': continue
